@@ -46,6 +46,47 @@ def type_desc(o):
         return 'prettyPrintType raises %s' % type(e).__name__
 
 
+def presence(T, obj, depth=0):
+    """Which slots of a value object hold something, read without instantiating anything (a never-set DEFAULT component and
+    one set to its default value encode alike but print, compare and iterate differently)."""
+    k = T['k']
+    try:
+        if depth > 6 or obj is None or not hasattr(obj, 'isValue'):
+            return None
+        if k in ir.RECORD_KINDS:
+            out = []
+            for i, c in enumerate(T['comps']):
+                x = obj.getComponentByPosition(i, default=None, instantiate=False)
+                out.append(None if x is None else (bool(x.isValue), presence(c['t'], x, depth + 1)))
+            return tuple(out)
+        if k in ir.OF_KINDS:
+            if not obj.isValue:
+                return 'schema'
+            return tuple(presence(T['of'], obj.getComponentByPosition(i, default=None, instantiate=False), depth + 1) for i in range(len(obj)))
+        if k == 'CHOICE':
+            if not obj.isValue:
+                return 'schema'
+            nm = obj.getName()
+            alt = [a for a in T['alts'] if a['name'] == nm][0]
+            return (nm, presence(alt['t'], obj.getComponent(), depth + 1))
+        return bool(obj.isValue)
+    except Exception as e:
+        return 'raises:' + type(e).__name__
+
+
+def behaviour(obj, twin):
+    """Printing and comparison behaviour of a value object (twin: an identically built, untouched object)."""
+    out = []
+    for fn in (lambda: obj.prettyPrint(), lambda: obj == twin, lambda: twin == obj, lambda: obj != twin, lambda: len(obj), lambda: hash(obj) and 0):
+        try:
+            out.append(fn())
+        except TypeError:
+            out.append('n/a')
+        except Exception as e:
+            out.append('raises:' + type(e).__name__)
+    return tuple(out)
+
+
 def snapshot(T, obj, sch=None):
     """Semantic snapshot of a value / schema object (no instantiating access)."""
     try:
@@ -58,7 +99,7 @@ def snapshot(T, obj, sch=None):
         isv = bool(obj.isValue)
     except Exception as e:
         isv = 'raises:' + type(e).__name__
-    return (content, isv, type_desc(obj), repr(obj.tagSet), repr(getattr(obj, 'subtypeSpec', None)))
+    return (content, isv, type_desc(obj), repr(obj.tagSet), repr(getattr(obj, 'subtypeSpec', None)), presence(T, obj))
 
 
 def enc_outcome(fn):
@@ -94,7 +135,9 @@ class Pool(object):
     def __init__(self, items):
         """items: [(T, v)]"""
         self.items = items
-        self.sch = [build.schema(T) for T, _v in items]
+        # entries of the same type share ONE schema object, as values of one module-level type do in a program
+        cache = {}
+        self.sch = [cache.setdefault(ir.jdump(T), build.schema(T)) for T, _v in items]
         self.obj = [build.value_from(s, T, v) for s, (T, v) in zip(self.sch, items)]
         self.der = [x690.der(T, v) for T, v in items]
         self.cer = [x690.cer(T, v) for T, v in items]
@@ -197,18 +240,30 @@ def run_case(case):
     desc = [ir.show_type(T)[:80] for T, _v in items]
     # ---- (1) encoding leaves the value alone and repeats
     for i, (T, v) in enumerate(items):
-        s0 = snapshot(T, pool.obj[i], pool.sch[i])
-        d0 = lib.encode('DER', pool.obj[i])
+        # every encoder gets an untouched object (an earlier call must not hide what a later one does), a twin stays untouched
+        # throughout; the DER comparison comes after the snapshots because it is an encoder call itself
+        twin = build.value_from(pool.sch[i], T, v)
+        d0 = lib.encode('DER', build.value_from(pool.sch[i], T, v))
         for name in CALLS[:9]:
+            if name.startswith('enc-'):
+                pool.obj[i] = build.value_from(pool.sch[i], T, v)
+            s0 = snapshot(T, pool.obj[i], pool.sch[i])
+            b0 = behaviour(pool.obj[i], twin)
             a = pool.call(name, i, 1)
+            s1 = snapshot(T, pool.obj[i], pool.sch[i])
+            b1 = behaviour(pool.obj[i], twin)
             b = pool.call(name, i, 1)
             if a != b:
                 F('encode-repeat', name, '%s twice on the same value gives %s then %s | %s' % (name, str(a)[:80], str(b)[:80], desc[i]))
-            s1 = snapshot(T, pool.obj[i], pool.sch[i])
+            if s1 != s0:
+                dif = [n for n, (x, y) in zip(('content', 'isValue', 'type', 'tagSet', 'subtypeSpec', 'slots'), zip(s0, s1)) if x != y]
+                F('encode-mutates', name, '%s changed the value being encoded (%s): %s -> %s | %s' % (
+                    name, ','.join(dif), str([s0[0], s0[5]])[:120], str([s1[0], s1[5]])[:120], desc[i]))
+            elif b1 != b0:
+                F('encode-mutates', name, '%s changed how the value prints / compares: %s -> %s | %s' % (name, str(b0)[:120], str(b1)[:120], desc[i]))
             d1 = lib.encode('DER', pool.obj[i])
-            if s1 != s0 or (d0.ok, d0.value) != (d1.ok, d1.value):
-                F('encode-mutates', name, '%s changed the value being encoded: %s -> %s | %s' % (name, str(s0[:2])[:100], str(s1[:2])[:100], desc[i]))
-                s0, d0 = s1, d1
+            if (d0.ok, d0.value) != (d1.ok, d1.value):
+                F('encode-mutates', name, '%s changed the DER encoding of the value: %s -> %s | %s' % (name, str(d0.value)[:60], str(d1.value)[:60], desc[i]))
     # ---- (2) decoding leaves the guiding type alone; results share nothing
     for i, (T, v) in enumerate(items):
         sch = pool.sch[i]
@@ -376,7 +431,19 @@ def run_shard(desc, seed, tier, col):
         for _ in range(n):
             T = gen.draw_type(d)
             pool.append([T, gen.draw_value(d, T)])
-        if d.pct(60):
+        if d.pct(30):
+            # a record that repeats a tag in two OPTIONAL runs separated by a mandatory member (legal: X.680 25.6), given two
+            # values that use the first and the second occurrence
+            X, Y = gen.draw_type(d, 0, root=False, allow_any=False), gen.draw_type(d, 0, root=False, allow_any=False)
+            if not X.get('tags') and not Y.get('tags') and ir.first_tags(X) and ir.first_tags(Y) and not (ir.first_tags(X) & ir.first_tags(Y)):
+                T = ir.mk('SEQUENCE')
+                T['comps'] = [ir.comp('low', X, 'opt'), ir.comp('mid', Y, 'req'), ir.comp('high', ir.from_jsonable(ir.to_jsonable(X)), 'opt')]
+                x1, x2, y = gen.draw_value(d, X), gen.draw_value(d, X), gen.draw_value(d, Y)
+                pool[0] = [T, {'mid': y, 'high': x1}]
+                pool.append([T, {'low': x2, 'mid': y}])
+                if d.pct(50):
+                    pool.append([T, {'low': x2, 'mid': y, 'high': x1}])
+        elif d.pct(60):
             pool.append([pool[0][0], gen.draw_value(d, pool[0][0])])       # the same type twice
         hist = [[d.pick(CALLS), d.int(0, len(pool) - 1), d.int(0, 5)] for _ in range(d.int(3, 10))]
         case = {'pool': pool, 'history': hist}
